@@ -22,12 +22,13 @@ import (
 type aeGen struct {
 	r        *RNG
 	w, h     int
-	alphaCls int // 0 opaque, 1 binary, 2 semi-transparent 128, 3 semi-transparent random
+	alphaCls int // 0 opaque, 1 binary, 2 semi-transparent 128, 3 semi-transparent random, 4 noise (every byte value), 5 one of lv
 	pal      [][3]byte
 	last     [4]int // region of the previous change
+	lv       []byte // alphaCls 5: the alpha levels
 }
 
-var aeAlphaNames = []string{"opaque", "binary", "semi128", "semi-random"}
+var aeAlphaNames = []string{"opaque", "binary", "semi128", "semi-random", "noise", "levels"}
 
 func (g *aeGen) colour() [3]byte {
 	if g.pal != nil {
@@ -44,6 +45,10 @@ func (g *aeGen) alpha() byte {
 		return []byte{0, 255, 255}[g.r.Intn(3)]
 	case 2:
 		return []byte{128, 128, 128, 255, 0}[g.r.Intn(5)]
+	case 4:
+		return byte(g.r.Next())
+	case 5:
+		return g.lv[g.r.Intn(len(g.lv))]
 	}
 	return []byte{byte(g.r.Next()), byte(g.r.Next()), 128, 255, 0, 1, 254}[g.r.Intn(7)]
 }
@@ -443,6 +448,252 @@ func aeGenCaseOpt(r *RNG, rich bool, opt aeGenOpt) *aeCase {
 			c.frames[r.Intn(len(c.frames))].dur = []int{-1, 16777216, 1 << 31}[r.Intn(3)]
 		}
 	}
+	return c
+}
+
+// ---------------------------------------------------------------------------------------------
+// scripted `sizes` pattern: consecutive pictures the encoder has to normalise
+
+// aeViewOrigins: Rect.Min of a picture handed over as a view (mostly non-zero, Min.X != Min.Y).
+var aeViewOrigins = [][2]int{{3, 1}, {0, 2}, {5, 0}, {-2, 4}, {7, 7}, {-1, -3}, {1, 0}, {0, 0}}
+
+// aeSizesScript rewrites the pictures of the case: an opening picture, then 3-5 CONSECUTIVE pictures that are
+// not canvas-sized and / or are views (non-zero origin, padded stride) with shrinking (every extent <= its
+// predecessor's, at least one smaller), shifting (wide-and-short, narrow-and-tall alternating) or mixed extents
+// (one of them canvas-sized as a view, one larger than the canvas), then up to two ordinary steps. A later
+// picture therefore leaves canvas pixels uncovered that an earlier one covered: AddFrame must show them
+// transparent. Content: the visible part of the predecessor (perhaps one pixel changed) or a new picture; the
+// alpha class is biased to opaque so that whatever is shown in the uncovered part is visible. Kmax 0 / 1.
+// Canvas (enlarged to at least 4x4), codec mode, quality and loop count of the case are kept.
+func aeSizesScript(c *aeCase, r *RNG) {
+	if c.w < 4 || c.h < 4 {
+		c.w, c.h = 4+r.Intn(10), 4+r.Intn(10)
+	}
+	ai := []int{0, 0, 0, 1, 2, 3}[r.Intn(6)]
+	g := &aeGen{r: r, w: c.w, h: c.h, alphaCls: ai}
+	c.alphaCls = aeAlphaNames[ai]
+	if r.Chance(2, 3) {
+		for k := 2 + r.Intn(3); k > 0; k-- {
+			g.pal = append(g.pal, [3]byte{byte(r.Next()), byte(r.Next()), byte(r.Next())})
+		}
+	}
+	g.last = [4]int{0, 0, c.w, c.h}
+	c.kmin, c.kmax = 0, r.Intn(2)
+	c.durCls = "small"
+	dur := func() int { return []int{0, 1, 40, 100, r.Intn(1000)}[r.Intn(5)] }
+	view := func(f aeFrame) aeFrame {
+		o := aeViewOrigins[r.Intn(len(aeViewOrigins))]
+		f.ox, f.oy, f.pad = o[0], o[1], []int{0, 1, 2, 5}[r.Intn(4)]
+		return f
+	}
+	pattern := []string{"shrink", "shift", "mixed"}[r.Intn(3)]
+	k := 3 + r.Intn(3)
+	var ext [][2]int
+	switch pattern {
+	case "shrink":
+		w, h := c.w-r.Intn(2), c.h-r.Intn(2)
+		for i := 0; i < k; i++ {
+			ext = append(ext, [2]int{w, h})
+			nw, nh := maxi(1, w-r.Intn(3)), maxi(1, h-r.Intn(3))
+			if nw == w && nh == h {
+				if w > 1 {
+					nw--
+				} else if h > 1 {
+					nh--
+				}
+			}
+			w, h = nw, nh
+		}
+	case "shift":
+		for i := 0; i < k; i++ {
+			if i%2 == 0 {
+				ext = append(ext, [2]int{c.w - r.Intn(2), 1 + r.Intn(maxi(1, c.h/2))})
+			} else {
+				ext = append(ext, [2]int{1 + r.Intn(maxi(1, c.w/2)), c.h - r.Intn(2)})
+			}
+		}
+	default:
+		for i := 0; i < k; i++ {
+			ext = append(ext, [2]int{1 + r.Intn(c.w+2), 1 + r.Intn(c.h+2)})
+		}
+		ext[r.Intn(k-1)] = [2]int{c.w, c.h} // canvas-sized: handed over as a view below
+	}
+	c.frames, c.genSteps = nil, []string{"script:sizes-" + pattern}
+	first := aeFrame{w: c.w, h: c.h, pix: g.picture(c.w, c.h)}
+	if r.Chance(1, 4) {
+		first = view(first)
+		c.genSteps = append(c.genSteps, "first:view")
+	}
+	first.dur = dur()
+	c.frames = append(c.frames, first)
+	prev := aePlace(c.w, c.h, first)
+	for _, e := range ext {
+		w, h := e[0], e[1]
+		var pix []byte
+		if r.Bool() {
+			pix = g.picture(w, h)
+		} else {
+			pix = make([]byte, 4*w*h)
+			fill := g.picture(w, h) // what lies beyond the canvas
+			for y := 0; y < h; y++ {
+				for x := 0; x < w; x++ {
+					src := fill[4*(y*w+x) : 4*(y*w+x)+4]
+					if x < c.w && y < c.h {
+						src = prev[4*(y*c.w+x) : 4*(y*c.w+x)+4]
+					}
+					copy(pix[4*(y*w+x):], src)
+				}
+			}
+			if r.Bool() {
+				x := g.px()
+				copy(pix[4*(r.Intn(mini(h, c.h))*w+r.Intn(mini(w, c.w))):], x[:])
+			}
+		}
+		f := aeFrame{dur: dur(), w: w, h: h, pix: pix}
+		step := "sized"
+		if (w == c.w && h == c.h) || r.Chance(2, 3) {
+			f = view(f)
+			if w == c.w && h == c.h && !f.view() {
+				f.pad = 3
+			}
+			if f.view() {
+				step = "sized-view"
+			}
+		}
+		c.frames = append(c.frames, f)
+		c.genSteps = append(c.genSteps, step)
+		prev = aePlace(c.w, c.h, f)
+	}
+	for n := r.Intn(3); n > 0; n-- {
+		f, kd := g.step(prev, aeStepKinds[r.Intn(len(aeStepKinds))])
+		f.dur = dur()
+		c.frames = append(c.frames, f)
+		c.genSteps = append(c.genSteps, kd)
+		prev = aePlace(c.w, c.h, f)
+	}
+}
+
+// aeGenSizesCase: a case of the dedicated sizes stream: three in four lossless non-mixed (C08 pixel oracles), the
+// rest in the mode the generator drew (model correspondence and C18 on the same inputs).
+func aeGenSizesCase(r *RNG, idx int) *aeCase {
+	c := aeGenCaseOpt(r, false, aeGenOpt{})
+	if idx%4 != 3 {
+		c.lossless, c.mixed = true, false
+	}
+	c.reuse, c.scribble = false, false
+	aeSizesScript(c, r)
+	return c
+}
+
+// ---------------------------------------------------------------------------------------------
+// many-level / noise alpha planes on small canvases (the filter choice and the raw fall-back of the ALPH coder)
+
+var aeAlphaCanvases = [][2]int{{1, 1}, {2, 2}, {3, 3}, {4, 4}, {5, 5}, {6, 6}, {7, 7}, {8, 8}, {4, 8}, {16, 3}, {16, 16}, {20, 13}}
+var aeAlphaLevelCounts = []int{0, 17, 64, 192, 193, 256, 0, 17} // 0 = noise
+
+// aeGenAlphaCase: a lossy (half), lossy+mixed or lossless+mixed sequence of 1-4 pictures over a small canvas whose
+// alpha plane is noise (every byte value) or has exactly n levels (GenAlphaLevelsImage, in generator order or
+// shuffled; n is capped by the pixel count); later pictures are new pictures / large / block / row changes in
+// the same alpha class, so that sub-frames carry such planes too; every quality incl. 100; Kmax {0,1,1,2,9}.
+func aeGenAlphaCase(r *RNG, idx int) *aeCase {
+	cv := aeAlphaCanvases[idx%len(aeAlphaCanvases)]
+	c := &aeCase{w: cv[0], h: cv[1], durCls: "small"}
+	switch (idx + idx/len(aeAlphaCanvases)) % 4 { // every canvas meets every mode
+	case 2:
+		c.mixed = true
+	case 3:
+		c.lossless, c.mixed = true, true
+	}
+	c.quality = []int{100, 0, 75, 100, 50, 90, 10, 100}[r.Intn(8)]
+	c.loop = aeLoops[r.Intn(len(aeLoops))]
+	c.kmin, c.kmax = 0, []int{0, 1, 1, 2, 9}[r.Intn(5)]
+	n := aeAlphaLevelCounts[r.Intn(len(aeAlphaLevelCounts))]
+	g := &aeGen{r: r, w: c.w, h: c.h, alphaCls: 4}
+	if r.Chance(1, 2) {
+		for k := 1 + r.Intn(3); k > 0; k-- {
+			g.pal = append(g.pal, [3]byte{byte(r.Next()), byte(r.Next()), byte(r.Next())})
+		}
+	}
+	g.last = [4]int{0, 0, c.w, c.h}
+	first := g.picture(c.w, c.h)
+	c.genSteps = append(c.genSteps, "alpha-first:noise")
+	if n > 0 {
+		lvImg := GenAlphaLevelsImage(r, c.w, c.h, n)
+		plane := make([]byte, c.w*c.h)
+		var seen [256]bool
+		for i := range plane {
+			plane[i] = lvImg.Pix[4*i+3]
+			if !seen[plane[i]] {
+				seen[plane[i]] = true
+				g.lv = append(g.lv, plane[i])
+			}
+		}
+		order := "ordered"
+		if r.Bool() {
+			order = "shuffled"
+			for i := len(plane) - 1; i > 0; i-- {
+				j := r.Intn(i + 1)
+				plane[i], plane[j] = plane[j], plane[i]
+			}
+		}
+		for i := range plane {
+			first[4*i+3] = plane[i]
+		}
+		g.alphaCls = 5
+		c.genSteps[0] = fmt.Sprintf("alpha-first:levels-%d-%s", n, order)
+	}
+	c.alphaCls = aeAlphaNames[g.alphaCls]
+	dur := func() int { return []int{1, 40, 100, r.Intn(1000)}[r.Intn(4)] }
+	c.frames = append(c.frames, aeFrame{dur: dur(), w: c.w, h: c.h, pix: first})
+	prev := first
+	kinds := []string{"new", "new", "large", "block", "block", "row", "column", "one-pixel", "repeat", "clear-region"}
+	for k := r.Intn(4); k > 0; k-- {
+		f, kd := g.step(prev, kinds[r.Intn(len(kinds))])
+		f.dur = dur()
+		c.frames = append(c.frames, f)
+		c.genSteps = append(c.genSteps, kd)
+		prev = aePlace(c.w, c.h, f)
+	}
+	return c
+}
+
+// ---------------------------------------------------------------------------------------------
+// frame counts around the frame thresholds of thresholds.go
+
+// aeGenFramesCase: an animation of exactly cc.N tiny pictures (canvas 1x1 .. 3x3). For the long ones (>= 29
+// frames) Kmax is above 30 (31, 40, 64, 100, 1000) with Kmin in {0, 1, Kmax/2, Kmax-1}, so that
+// sanitizeKeyframeOptions crosses its maxCachedFrames branch and the key-frame distance counter runs past 30.
+func aeGenFramesCase(r *RNG, cc CountCase, idx int) *aeCase {
+	c := &aeCase{w: 1 + r.Intn(3), h: 1 + r.Intn(3), durCls: "small"}
+	c.lossless = idx%2 == 0
+	c.mixed = r.Chance(1, 5)
+	c.quality = aeQualities[r.Intn(len(aeQualities))]
+	c.loop = aeLoops[r.Intn(len(aeLoops))]
+	if cc.N >= 29 {
+		c.kmax = []int{31, 40, 64, 100, 1000}[r.Intn(5)]
+	} else {
+		c.kmax = []int{0, 2, 3, 31, 64}[r.Intn(5)]
+	}
+	c.kmin = []int{0, 1, c.kmax / 2, maxi(c.kmax-1, 0)}[r.Intn(4)]
+	ai := r.Intn(4)
+	g := &aeGen{r: r, w: c.w, h: c.h, alphaCls: ai}
+	c.alphaCls = aeAlphaNames[ai]
+	for k := 2 + r.Intn(2); k > 0; k-- {
+		g.pal = append(g.pal, [3]byte{byte(r.Next()), byte(r.Next()), byte(r.Next())})
+	}
+	g.last = [4]int{0, 0, c.w, c.h}
+	dur := func() int { return []int{0, 1, 40, 100, r.Intn(1000)}[r.Intn(5)] }
+	first := aeFrame{dur: dur(), w: c.w, h: c.h, pix: g.picture(c.w, c.h)}
+	c.frames = append(c.frames, first)
+	prev := first.pix
+	for len(c.frames) < cc.N {
+		f, kd := g.step(prev, aeStepKinds[r.Intn(len(aeStepKinds))])
+		f.dur = dur()
+		c.frames = append(c.frames, f)
+		c.genSteps = append(c.genSteps, kd)
+		prev = aePlace(c.w, c.h, f)
+	}
+	c.cnt = &cc
 	return c
 }
 
@@ -1073,7 +1324,7 @@ func aeExhCanvas(n int) []byte {
 
 func aeExhCase(lossless bool, a, b int) *aeCase {
 	return &aeCase{w: 2, h: 2, lossless: lossless, quality: 75, alphaCls: "exh", durCls: "exh",
-		frames: []aeFrame{{40, 2, 2, aeExhCanvas(a)}, {60, 2, 2, aeExhCanvas(b)}}}
+		frames: []aeFrame{{dur: 40, w: 2, h: 2, pix: aeExhCanvas(a)}, {dur: 60, w: 2, h: 2, pix: aeExhCanvas(b)}}}
 }
 
 type aeExhResult struct {
